@@ -1743,6 +1743,31 @@ class Gen:
             if rng.random() < 0.3:
                 ids.append(rng.choice([V.tid(x) for x in members]))
             v = rng.choice([None, None, 'key', 'key+kw'])
+        if not getattr(self, 'spread_done', False) and self.rng2.random() < 0.35:
+            # aimed episode (own stream): four fresh tasks a, b, x, c join the WBS as roots a, b, c with x below b; then
+            # remove_all names a, x and c - two siblings separated, in WBS order, by a match that has another parent (and
+            # b, between them, stays).  Every named task must be gone and unowned afterwards.
+            self.spread_done = True
+            how = {'aim': 'remove-all-spread'}
+            r = V.wr[w]
+            n0 = V.n
+            a, b, x, c = n0, n0 + 1, n0 + 2, n0 + 3
+            i0 = 51 + 4 * (len(V.wr) % 3)
+            order = [i0, i0 + 2, i0 + 3]
+            self.rng2.shuffle(order)
+            self.queue = [(['NewTask', i0 + 1, None, 'sb', None], {}), (['NewTask', i0 + 2, None, 'sx', None], {}),
+                          (['NewTask', i0 + 3, None, 'sc', None], {}),
+                          (['ChAppend', r, a], dict(how, facade=None)), (['ChAppend', r, b], dict(how, facade=None)),
+                          (['ChAppend', b, x], dict(how, facade=None)), (['ChAppend', r, c], dict(how, facade=None)),
+                          (['WbsRemoveAll', w, order], dict(how, v=self.rng2.choice([None, 'key'])))]
+            return ['NewTask', i0, None, 'sa', None], {}
+        if len(members) >= 3 and self.rng2.random() < 0.3:
+            # aimed (own stream): MANY matches spread over the tree - siblings separated, in WBS order, by a match that has
+            # another parent; every match must be gone afterwards, in whatever order or grouping they are taken out
+            tids = list(dict.fromkeys(V.tid(x) for x in members if self.rng2.random() < 0.65))
+            if len(tids) >= 3:
+                ids = tids
+                self.rng2.shuffle(ids)
         return ['WbsRemoveAll', w, ids], {'v': v}
 
     def g_SetEst(self, V):
